@@ -1,0 +1,107 @@
+//go:build verif
+// +build verif
+
+package rockredis
+
+// Contracts for the deductive verifier in /verif (govc).  Comment-only file,
+// compiled only under the build tag `verif`; production builds never see it.
+
+//@ property C12
+
+//@ spec be16(b []byte, p int) int = int(b[p])*256 + int(b[p+1])
+//@ spec eqAt(dst []byte, p int, src []byte) bool = forall i int :: 0 <= i && i < len(src) ==> dst[p+i] == src[i]
+
+//@ func getDataTablePrefixBufLen(dataType byte, table []byte) int
+//@   ensures dataType == KVType ==> result == len(table) + 2
+//@   ensures dataType != KVType ==> result == len(table) + 4
+
+//@ func encodeDataTablePrefixToBuf(buf []byte, dataType byte, table []byte) int
+//@   requires dataType != KVType ==> len(buf) >= 4+len(table)
+//@   requires dataType == KVType ==> len(buf) >= 2+len(table)
+//@   requires len(table) < 65536 && disjoint(buf, table)
+//@   ensures  buf[0] == dataType
+//@   ensures  dataType != KVType ==> result == 4+len(table) && be16(buf,1) == len(table) && eqAt(buf,3,table) && buf[3+len(table)] == ':'
+//@   ensures  dataType == KVType ==> result == 2+len(table) && eqAt(buf,1,table) && buf[1+len(table)] == ':'
+//@   modifies buf[0:result]
+
+//@ func decodeDataTablePrefixFromBuf(buf []byte, dataType byte) ([]byte, int, error)
+//@   requires len(buf) < 1 || buf[0] != dataType || len(buf) < 3 || be16(buf,1) + 3 < len(buf)
+//@   ensures  result2 == nil <==> (len(buf) >= 4 + be16(buf,1) && buf[0] == dataType && buf[3+be16(buf,1)] == ':')
+//@   ensures  result2 == nil ==> result1 == 4 + be16(buf,1) && len(result0) == be16(buf,1) && sameSlice(result0, buf[3:3+be16(buf,1)])
+
+//@ func encodeCollSubKey(dt byte, table []byte, key []byte, subkey []byte) []byte
+//@   requires dt == HashType || dt == SetType || dt == ZSetType
+//@   requires len(table) < 65536 && len(key) < 65536
+//@   ensures  len(result) == 4+len(table)+2+len(key)+1+len(subkey) && fresh(result)
+//@   ensures  result[0] == dt && be16(result,1) == len(table) && eqAt(result,3,table) && result[3+len(table)] == ':'
+//@   ensures  be16(result,4+len(table)) == len(key) && eqAt(result,6+len(table),key) && result[6+len(table)+len(key)] == ':'
+//@   ensures  eqAt(result,7+len(table)+len(key),subkey)
+
+//@ func decodeCollSubKey(dbk []byte) (byte, []byte, []byte, []byte, error)
+//@   requires len(dbk) >= 1
+//@   requires len(dbk) < 3 || be16(dbk,1) + 3 < len(dbk)
+//@   requires len(dbk) < 6 + be16(dbk,1) || be16(dbk, 4+be16(dbk,1)) + 6 + be16(dbk,1) < len(dbk)
+//@   ensures  result4 == nil ==> result0 == dbk[0] && (result0 == HashType || result0 == SetType || result0 == ZSetType)
+//@   ensures  result4 == nil ==> sameSlice(result1, dbk[3:3+be16(dbk,1)]) && dbk[3+be16(dbk,1)] == ':'
+//@   ensures  result4 == nil ==> sameSlice(result2, dbk[6+be16(dbk,1) : 6+be16(dbk,1)+be16(dbk,4+be16(dbk,1))])
+//@   ensures  result4 == nil ==> sameSlice(result3, dbk[7+be16(dbk,1)+be16(dbk,4+be16(dbk,1)) : len(dbk)])
+//@   ensures  result4 == nil <==> ((dbk[0] == HashType || dbk[0] == SetType || dbk[0] == ZSetType) && len(dbk) >= 7+be16(dbk,1) && dbk[3+be16(dbk,1)] == ':' && len(dbk) >= 7+be16(dbk,1)+be16(dbk,4+be16(dbk,1)) && dbk[6+be16(dbk,1)+be16(dbk,4+be16(dbk,1))] == ':')
+
+// ---- shapes ----
+//@ spec isCollKey(b []byte, dt byte, table []byte, key []byte, sub []byte) bool = len(b) == 7+len(table)+len(key)+len(sub) && b[0] == dt && be16(b,1) == len(table) && eqAt(b,3,table) && b[3+len(table)] == ':' && be16(b,4+len(table)) == len(key) && eqAt(b,6+len(table),key) && b[6+len(table)+len(key)] == ':' && eqAt(b,7+len(table)+len(key),sub)
+//@ spec isCollStop(b []byte, dt byte, table []byte, key []byte) bool = len(b) == 7+len(table)+len(key) && b[0] == dt && be16(b,1) == len(table) && eqAt(b,3,table) && b[3+len(table)] == ':' && be16(b,4+len(table)) == len(key) && eqAt(b,6+len(table),key) && b[6+len(table)+len(key)] == ';'
+//@ spec isMetaKey(b []byte, t byte, key []byte) bool = len(b) == 6+len(key) && b[0] == t && b[1] == 'm' && b[2] == 'e' && b[3] == 't' && b[4] == 'a' && b[5] == ':' && eqAt(b,6,key)
+//@ spec smallTK(table []byte, key []byte) bool = len(table) < 65536 && len(key) < 65536
+
+// ---- size / meta keys ----
+//@ func hEncodeSizeKey(key []byte) []byte
+//@   ensures isMetaKey(result, HSizeType, key) && fresh(result)
+//@ func hDecodeSizeKey(ek []byte) ([]byte, error)
+//@   ensures result1 == nil <==> (len(ek) >= 6 && ek[0] == HSizeType)
+//@   ensures result1 == nil ==> sameSlice(result0, ek[6:len(ek)])
+//@ func sEncodeSizeKey(key []byte) []byte
+//@   ensures isMetaKey(result, SSizeType, key) && fresh(result)
+//@ func sDecodeSizeKey(ek []byte) ([]byte, error)
+//@   ensures result1 == nil <==> (len(ek) >= 6 && ek[0] == SSizeType)
+//@   ensures result1 == nil ==> sameSlice(result0, ek[6:len(ek)])
+//@ func zEncodeSizeKey(key []byte) []byte
+//@   ensures isMetaKey(result, ZSizeType, key) && fresh(result)
+//@ func zDecodeSizeKey(ek []byte) ([]byte, error)
+//@   ensures result1 == nil <==> (len(ek) >= 6 && ek[0] == ZSizeType)
+//@   ensures result1 == nil ==> sameSlice(result0, ek[6:len(ek)])
+//@ func lEncodeMetaKey(key []byte) []byte
+//@   ensures isMetaKey(result, LMetaType, key) && fresh(result)
+//@ func lDecodeMetaKey(ek []byte) ([]byte, error)
+//@   ensures result1 == nil <==> (len(ek) >= 6 && ek[0] == LMetaType)
+//@   ensures result1 == nil ==> sameSlice(result0, ek[6:len(ek)])
+//@ func bitEncodeMetaKey(key []byte) []byte
+//@   ensures isMetaKey(result, BitmapMetaType, key) && fresh(result)
+//@ func bitDecodeMetaKey(ek []byte) ([]byte, error)
+//@   ensures result1 == nil <==> (len(ek) >= 6 && ek[0] == BitmapMetaType)
+//@   ensures result1 == nil ==> sameSlice(result0, ek[6:len(ek)])
+//@ func encodeTableMetaKey(table []byte) []byte
+//@   ensures isMetaKey(result, TableMetaType, table) && fresh(result)
+//@ func decodeTableMetaKey(tk []byte) ([]byte, error)
+//@   ensures result1 == nil <==> (len(tk) >= 6 && tk[0] == TableMetaType)
+//@   ensures result1 == nil ==> sameSlice(result0, tk[6:len(tk)])
+//@ func encodeKVKey(key []byte) []byte
+//@   ensures len(result) == 1+len(key) && result[0] == KVType && eqAt(result,1,key) && fresh(result)
+//@ func decodeKVKey(ek []byte) ([]byte, error)
+//@   ensures result1 == nil <==> (len(ek) >= 1 && ek[0] == KVType)
+//@   ensures result1 == nil ==> sameSlice(result0, ek[1:len(ek)])
+
+// ---- hash / set / zset member keys ----
+//@ func hEncodeHashKey(table []byte, key []byte, field []byte) []byte
+//@   requires smallTK(table, key)
+//@   ensures isCollKey(result, HashType, table, key, field) && fresh(result)
+//@ func hDecodeHashKey(ek []byte) ([]byte, []byte, []byte, error)
+//@   requires len(ek) >= 1
+//@   requires len(ek) < 3 || be16(ek,1) + 3 < len(ek)
+//@   requires len(ek) < 6 + be16(ek,1) || be16(ek, 4+be16(ek,1)) + 6 + be16(ek,1) < len(ek)
+//@   ensures result3 == nil ==> isCollKey(ek, HashType, result0, result1, result2)
+//@ func hEncodeStartKey(table []byte, key []byte) []byte
+//@   requires smallTK(table, key)
+//@   ensures isCollKey(result, HashType, table, key, nil) && fresh(result)
+//@ func hEncodeStopKey(table []byte, key []byte) []byte
+//@   requires smallTK(table, key)
+//@   ensures isCollStop(result, HashType, table, key) && fresh(result)
